@@ -1,6 +1,6 @@
 """C18 Route A: ParseTimeout.unparse / parse_time read from /repo's AST and translated to QF_FPBV (z3 FP, Float64, RNE).
 
-Nothing about the two kernels is written by hand: `extract()` walks the AST of
+Nothing about the two kernels is written by hand: `Model(src_root)` walks the AST of
   halmos.config.ParseTimeout.parse / .unparse  and  halmos.utils.parse_time
 and produces
   * unparse cases  [(guard(value), int_term(value), suffix)]   from `if value < 1: return f"{int(value * 1000)}ms"` ...
@@ -22,7 +22,7 @@ import z3
 F64 = z3.Float64()
 RNE = z3.RNE()
 RTZ = z3.RTZ()
-NBITS = 64  # width of the integers that appear in the strings
+NBITS = 44  # width of the integers that appear in the strings (all ranges used are below 2^42)
 
 
 class Unsupported(Exception):
@@ -76,6 +76,10 @@ class Tr:
             if a[0] == "c" and b[0] == "c":
                 raise Unsupported("constant folding")
             if "i" in (a[0], b[0]):
+                # int(...) / const : Python's true division of an int < 2^53 by an int constant is the correctly rounded
+                # exact quotient = IEEE division of the exactly converted operands (NBITS = 44 < 53)
+                if a[0] == "i" and b[0] == "c" and isinstance(e.op, ast.Div) and isinstance(b[1], int) and abs(b[1]) < 2 ** 53:
+                    return ("f", z3.fpDiv(RNE, z3.fpSignedToFP(RNE, a[1], F64), fp_const(b[1])))
                 raise Unsupported("integer arithmetic")
             fa = fp_const(a[1]) if a[0] == "c" else a[1]
             fb = fp_const(b[1]) if b[0] == "c" else b[1]
@@ -89,7 +93,7 @@ class Tr:
             if e.func.id == "int":
                 if a[0] != "f":
                     raise Unsupported("int() of a non-float")
-                # truncation toward zero; the caller constrains the operand to |x| < 2^62 (no overflow of the bv)
+                # truncation toward zero; the caller constrains the operand to 0 <= x < 2^(NBITS-2) (no overflow of the bv)
                 return ("i", z3.fpToSBV(RTZ, a[1], z3.BitVecSort(NBITS)), a[1])
             if e.func.id == "float":
                 if a[0] == "i":
@@ -98,8 +102,16 @@ class Tr:
         raise Unsupported(ast.dump(e)[:80])
 
     def cond(self, e):
+        if isinstance(e, ast.BoolOp) and isinstance(e.op, (ast.And, ast.Or)):
+            parts = [self.cond(v) for v in e.values]
+            return z3.And(*parts) if isinstance(e.op, ast.And) else z3.Or(*parts)
         if isinstance(e, ast.Compare) and len(e.ops) == 1:
             a, b = self.num(e.left), self.num(e.comparators[0])
+            # float <op> int: Python compares exactly; an int below 2^53 converts exactly (NBITS = 44)
+            if a[0] == "i" and b[0] in ("f", "c"):
+                a = ("f", z3.fpSignedToFP(RNE, a[1], F64))
+            if b[0] == "i" and a[0] in ("f", "c"):
+                b = ("f", z3.fpSignedToFP(RNE, b[1], F64))
             if "i" in (a[0], b[0]):
                 raise Unsupported("integer comparison")
             fa = fp_const(a[1]) if a[0] == "c" else a[1]
@@ -116,10 +128,16 @@ def _joined(e, tr):
     if not isinstance(e, ast.JoinedStr) or len(e.values) != 2:
         raise Unsupported("return value is not f'{int}suffix'")
     fv, suf = e.values
-    if not (isinstance(fv, ast.FormattedValue) and fv.conversion == -1 and fv.format_spec is None):
-        raise Unsupported("formatted value with conversion/format spec")
     if not (isinstance(suf, ast.Constant) and isinstance(suf.value, str)):
         raise Unsupported("suffix is not a literal")
+    if isinstance(fv, ast.FormattedValue) and fv.conversion == ord("r") and fv.format_spec is None:
+        # f"{x!r}<suffix>" with x a float: repr(float) is the shortest string that float() maps back to x exactly
+        t = tr.num(fv.value)
+        if t[0] != "f":
+            raise Unsupported("!r of a non-float")
+        return ("r", None, t[1]), suf.value
+    if not (isinstance(fv, ast.FormattedValue) and fv.conversion == -1 and fv.format_spec is None):
+        raise Unsupported("formatted value with conversion/format spec")
     t = tr.num(fv.value)
     if t[0] != "i":
         raise Unsupported("formatted value is not int(...)")
@@ -137,6 +155,9 @@ def unparse_cases(fn: ast.FunctionDef, value: z3.FPRef):
         for i, st in enumerate(stmts):
             if isinstance(st, ast.Expr) and isinstance(st.value, ast.Constant):
                 continue  # docstring
+            if isinstance(st, ast.Assign) and len(st.targets) == 1 and isinstance(st.targets[0], ast.Name):
+                tr.env[st.targets[0].id] = tr.num(st.value)
+                continue
             if isinstance(st, ast.Return):
                 t, suf = _joined(st.value, tr)
                 cases.append((z3.And(*path) if path else z3.BoolVal(True), t, suf))
@@ -267,15 +288,31 @@ class Model:
                 return (z3.fpMul if op is ast.Mult else z3.fpDiv)(RNE, x, fp_const(const))
         raise Unsupported(f"no branch for unit {eff!r}")
 
+    def parse_float_with_suffix(self, x: z3.FPRef, suffix: str) -> z3.FPRef:
+        """parse(f"{x!r}{suffix}") for a finite float x: float(repr(x)) == x exactly (Python's repr guarantee)"""
+        for suf, k, op, const in self.branches:
+            if suffix.endswith(suf):
+                if k != len(suf) or len(suffix) != len(suf):
+                    raise Unsupported("slice does not strip exactly the unit")
+                if op is None:
+                    return x
+                return (z3.fpMul if op is ast.Mult else z3.fpDiv)(RNE, x, fp_const(const))
+        raise Unsupported(f"no branch for unit {suffix!r}")
+
     def unparse(self, value: z3.FPRef):
         return unparse_cases(self.unparse_fn, value)
 
     def roundtrip_defect(self, x0: z3.FPRef):
-        """formula: parse(unparse(x0)) != x0 (for finite x0 >= 0 with |x0*1000| < 2^62), plus the per-case terms"""
+        """formula: parse(unparse(x0)) != x0 (for finite x0 >= 0 with the int() operand below 2^(NBITS-2)), plus the per-case terms"""
         alts, cases = [], []
-        for guard, (_, m_bv, operand), suffix in self.unparse(x0):
+        for guard, (kind, m_bv, operand), suffix in self.unparse(x0):
+            if kind == "r":
+                x1 = self.parse_float_with_suffix(operand, suffix)
+                alts.append(z3.And(guard, z3.Not(z3.fpEQ(x1, x0))))
+                cases.append((guard, None, suffix, x1))
+                continue
             x1 = self.parse_int_with_suffix(m_bv, suffix)
-            inrange = z3.And(z3.fpLT(operand, z3.FPVal(2.0 ** 62, F64)), z3.fpGEQ(operand, z3.FPVal(0.0, F64)))
+            inrange = z3.And(z3.fpLT(operand, z3.FPVal(2.0 ** (NBITS - 2), F64)), z3.fpGEQ(operand, z3.FPVal(0.0, F64)))
             alts.append(z3.And(guard, inrange, z3.Not(z3.fpEQ(x1, x0))))
             cases.append((guard, m_bv, suffix, x1))
         return z3.Or(*alts), cases
@@ -290,8 +327,12 @@ def eval_concrete(model: Model, n: int, unit: str):
     """model prediction for the string f"{n}{unit}": (x0, unparse text, x1)"""
     nb = z3.BitVecVal(n, NBITS)
     x0 = z3.simplify(model.parse_int_with_suffix(nb, unit))
-    for guard, (_, m_bv, _), suffix in model.unparse(x0):
+    for guard, (kind, m_bv, operand), suffix in model.unparse(x0):
         if z3.is_true(z3.simplify(guard)):
+            if kind == "r":
+                xv = fp_to_float(z3.simplify(operand))
+                x1 = z3.simplify(model.parse_float_with_suffix(operand, suffix))
+                return fp_to_float(x0), f"{xv!r}{suffix}", fp_to_float(x1)
             m = z3.simplify(m_bv).as_signed_long()
             x1 = z3.simplify(model.parse_int_with_suffix(z3.BitVecVal(m, NBITS), suffix))
             return fp_to_float(x0), f"{m}{suffix}", fp_to_float(x1)
